@@ -134,8 +134,18 @@ pub fn divide_segment_n2_instance_body<S: Src>(_s: &mut S) {
 
 /// Contract stub of `divide_segment` for callers' harnesses (U-I4): checks the precondition, produces a post-state
 /// that satisfies the postcondition proved in `divide_segment_contract_*`.
+pub static mut DIV_N: usize = 0;
+pub static mut DIV_WHO: [*const (); 3] = [std::ptr::null(); 3]; // identity of the left event handed to divide_segment
+pub static mut DIV_AT: [(f64, f64); 3] = [(0.0, 0.0); 3]; // the division point handed to it
+pub static mut DIV_NEW_L: [*const (); 3] = [std::ptr::null(); 3]; // the new event that starts the right piece
+
 #[cfg(kani)]
 pub fn divide_segment_by_contract<F: Float + AnyF>(se_l: &Rc<SweepEvent<F>>, inter: Coord<F>, queue: &mut BinaryHeap<Rc<SweepEvent<F>>>) {
+    unsafe {
+        assert!(DIV_N < 3, "more than three divisions in one intersection step");
+        DIV_WHO[DIV_N] = Rc::as_ptr(se_l) as *const ();
+        DIV_AT[DIV_N] = (inter.x.into(), inter.y.into());
+    }
     let se_r = se_l.get_other_event().unwrap();
     assert!(se_l.is_left() && inter != se_l.point && inter != se_r.point && inter.x >= se_l.point.x, "precondition of divide_segment (U-I3)");
     let bumped = inter.x == se_l.point.x && inter.y < se_l.point.y;
@@ -151,6 +161,10 @@ pub fn divide_segment_by_contract<F: Float + AnyF>(se_l: &Rc<SweepEvent<F>>, int
     }
     se_l.set_other_event(&r);
     se_r.set_other_event(&l);
+    unsafe {
+        DIV_NEW_L[DIV_N] = Rc::as_ptr(&l) as *const ();
+        DIV_N += 1;
+    }
     queue.push(l);
     queue.push(r);
     std::mem::forget(se_r);
@@ -204,20 +218,13 @@ pub fn intersection_contract<F: Float>(a1: Coord<F>, a2: Coord<F>, b1: Coord<F>,
     }
 }
 
-fn untouched<F: AnyF>(l: &Rc<SweepEvent<F>>, r: &Rc<SweepEvent<F>>) -> bool {
-    is_subsegment(l, r)
+/// the k-th recorded call of divide_segment was (segment with left event `l`, point `at`)
+fn div_call<F: AnyF>(k: usize, l: &Rc<SweepEvent<F>>, at: Coord<F>) -> bool {
+    unsafe { k < DIV_N && DIV_WHO[k] == Rc::as_ptr(l) as *const () && DIV_AT[k] == (at.x.into(), at.y.into()) }
 }
 
-/// l was divided at point `at` (or at its one-ulp bump in the documented corner case): both pieces are proper
-/// sub-segments that meet in one point, the outer ends are the old ones
-fn divided_at<F: AnyF>(l: &Rc<SweepEvent<F>>, r: &Rc<SweepEvent<F>>, at: Coord<F>) -> bool {
-    let nr = l.get_other_event().unwrap();
-    let nl = r.get_other_event().unwrap();
-    let bumped = at.x == l.point.x && at.y < l.point.y;
-    let want = if bumped { Coord { x: at.x.nextafter(true), y: at.y } } else { at };
-    let ok = !Rc::ptr_eq(&nr, r) && is_subsegment(l, &nr) && (is_subsegment(&nl, r) || is_subsegment(r, &nl)) && nr.point == nl.point && nr.point == want;
-    std::mem::forget((nr, nl));
-    ok
+fn div_calls() -> usize {
+    unsafe { DIV_N }
 }
 
 /// `kind` (concrete per harness): what the intersection routine answers -- 0 None, 1 Point, 2 Overlap
@@ -259,29 +266,27 @@ pub fn possible_intersection_contract_body<F: AnyF, S: Src>(s: &mut S, kind: u8)
     let pushed = take_pushed::<F>(n0, queue);
 
     let et_unchanged = se1.get_edge_type() == EdgeType::Normal && se2.get_edge_type() == EdgeType::Normal;
+    // every division is done by divide_segment (U-I3: two pushes, linked proper pieces meeting in the point); nothing else pushes
+    assert!(pushed.len() == 2 * div_calls(), "C13: events enter the queue only through divisions, two per division");
     if kind == 0 {
-        assert!(code == 0 && pushed.len() == 0 && untouched(&se1, &o1) && untouched(&se2, &o2) && et_unchanged, "C16: no intersection => nothing happens");
+        assert!(code == 0 && div_calls() == 0 && et_unchanged, "C16: no intersection => nothing happens");
     } else if kind == 1 {
         if p1 == p2 || q1 == q2 {
-            assert!(code == 0 && pushed.len() == 0 && untouched(&se1, &o1) && untouched(&se2, &o2) && et_unchanged, "C16: segments that share an endpoint and meet in one point are left untouched");
+            assert!(code == 0 && div_calls() == 0 && et_unchanged, "C16: segments that share an endpoint and meet in one point are left untouched");
         } else {
             assert!(code == 1 && et_unchanged, "C16: a point intersection is reported with code 1");
             let d1 = ip != p1 && ip != q1;
             let d2 = ip != p2 && ip != q2;
-            assert!(pushed.len() == 2 * (d1 as usize) + 2 * (d2 as usize), "C13: two events per divided segment");
+            assert!(div_calls() == (d1 as usize) + (d2 as usize), "C16: exactly the segments that contain the point in their interior are split");
             if d1 {
-                assert!(divided_at(&se1, &o1, ip), "C16: the first segment contains the point in its interior and is split there");
-            } else {
-                assert!(untouched(&se1, &o1), "C16: the point is an endpoint of the first segment: not split");
+                assert!(div_call(0, &se1, ip), "C16: the first segment is split at the reported point");
             }
             if d2 {
-                assert!(divided_at(&se2, &o2, ip), "C16: the second segment contains the point in its interior and is split there");
-            } else {
-                assert!(untouched(&se2, &o2), "C16: the point is an endpoint of the second segment: not split");
+                assert!(div_call(d1 as usize, &se2, ip), "C16: the second segment is split at the same reported point");
             }
         }
     } else if s1 == s2 {
-        assert!(code == 0 && pushed.len() == 0 && untouched(&se1, &o1) && untouched(&se2, &o2) && et_unchanged, "C16: overlapping edges of one operand are left alone");
+        assert!(code == 0 && div_calls() == 0 && et_unchanged, "C16: overlapping edges of one operand are left alone");
     } else {
         // collinear overlap of different operands: split at the overlap's ends (existing endpoints), type the coincident pair
         let left_coincide = p1 == p2;
@@ -291,32 +296,30 @@ pub fn possible_intersection_contract_body<F: AnyF, S: Src>(s: &mut S, kind: u8)
             assert!(se2.get_edge_type() == EdgeType::NonContributing, "C14/C16: the upper twin is non-contributing");
             assert!(se1.get_edge_type() == if se1.is_in_out() == se2.is_in_out() { EdgeType::SameTransition } else { EdgeType::DifferentTransition }, "C14/C16: the lower twin carries the combined transition type");
             if right_coincide {
-                assert!(pushed.len() == 0 && untouched(&se1, &o1) && untouched(&se2, &o2), "C16: identical segments are not split");
+                assert!(div_calls() == 0, "C16: identical segments are not split");
             } else if pt_lt(w(q1), w(q2)) {
-                assert!(pushed.len() == 2 && untouched(&se1, &o1) && divided_at(&se2, &o2, q1), "C16: the longer twin is split at the shorter one's right end");
+                assert!(div_calls() == 1 && div_call(0, &se2, q1), "C16: the longer twin is split at the shorter one's right end");
             } else {
-                assert!(pushed.len() == 2 && untouched(&se2, &o2) && divided_at(&se1, &o1, q2), "C16: the longer twin is split at the shorter one's right end");
+                assert!(div_calls() == 1 && div_call(0, &se1, q2), "C16: the longer twin is split at the shorter one's right end");
             }
         } else {
             assert!(code == 3 && et_unchanged, "C16: overlap with distinct left ends => code 3, typing happens when the coincident pieces are met later");
-            // the segment that starts first is split at the other's left end; the one that ends last is split at the other's right end
+            // the segment that starts first is split where the other starts; the one that ends last where the other ends
             let first_is_1 = pt_lt(w(p1), w(p2));
-            let (fl, fr, sl, sr) = if first_is_1 { (&se1, &o1, &se2, &o2) } else { (&se2, &o2, &se1, &o1) };
+            let (fl, fq, sl, sq) = if first_is_1 { (&se1, q1, &se2, q2) } else { (&se2, q2, &se1, q1) };
             if right_coincide {
-                assert!(pushed.len() == 2 && divided_at(fl, fr, sl.point) && untouched(sl, sr), "C16: the earlier segment is split where the later one starts");
+                assert!(div_calls() == 1 && div_call(0, fl, sl.point), "C16: the earlier segment is split where the later one starts");
             } else {
-                assert!(pushed.len() == 4, "C16: an overlap with four distinct ends causes two divisions");
-                let first_ends_last = pt_lt(w(sr.point), w(fr.point));
-                if !first_ends_last {
-                    assert!(divided_at(fl, fr, sl.point) && divided_at(sl, sr, fr.point), "C16: partial overlap: each segment is split at the other's end inside it");
+                assert!(div_calls() == 2 && div_call(0, fl, sl.point), "C16: first division: the earlier segment, where the later one starts");
+                if pt_lt(w(fq), w(sq)) {
+                    // partial overlap: the later segment is split where the earlier one ends
+                    assert!(div_call(1, sl, fq), "C16: partial overlap: the later segment is split where the earlier one ends");
                 } else {
-                    // containment: the containing segment is split twice, the contained one not at all
-                    assert!(untouched(sl, sr), "C16: the contained segment is not split");
-                    let m1 = fl.get_other_event().unwrap(); // right end of the first piece
-                    let m2 = fr.get_other_event().unwrap(); // left end of the last piece
-                    assert!(is_subsegment(fl, &m1) && m1.point == sl.point, "C16: the containing segment is split at the contained one's left end");
-                    assert!((is_subsegment(&m2, fr) || is_subsegment(fr, &m2)) && m2.point == sr.point, "C16: ... and at its right end");
-                    std::mem::forget((m1, m2));
+                    // containment: the remainder of the containing segment is split where the contained one ends
+                    unsafe {
+                        assert!(DIV_WHO[1] == DIV_NEW_L[0] && DIV_AT[1] == (sq.x.into(), sq.y.into()),
+                            "C16: containment: the remainder of the containing segment is split where the contained one ends");
+                    }
                 }
             }
         }
